@@ -74,8 +74,8 @@ Print Assumptions C11_union_duplicate_free.
 (* the encoding of the pinned commit is refuted: [A+, B-] and its reverse have
    different junction sets (repaired by a fix: commit) *)
 Theorem C11_legacy_refuted : exists rows js jr,
-  Forall pm (frags_of rows) /\ junction_set (mkCfg true true true false) rows = Ok js
-  /\ junction_set (mkCfg true true true false) (rows_reverse rows) = Ok jr
+  Forall pm (frags_of rows) /\ junction_set (mkCfg true true true false true) rows = Ok js
+  /\ junction_set (mkCfg true true true false true) (rows_reverse rows) = Ok jr
   /\ ~ (forall j, In j js <-> In j jr).
 Proof. exact legacy_junction_refuted. Qed.
 Print Assumptions C11_legacy_refuted.
